@@ -1,5 +1,5 @@
 """C06 -- loop and if-branches only where the language allows."""
-from rules import hirq, mirq, typestate, flagstate
+from rules import hirq, mirq, typestate, flagstate, visit
 from rules.core import walk, norm_path, AnchorMissing
 
 LEVEL = "other"
@@ -236,9 +236,29 @@ def r4_generator(run, F):
            F.where(s), "documented dependency (if this arm ever generates code the rule above must be revisited)")
 
 
+def r5_visit(run, F):
+    """T2: the syntax analyzer reaches every statement (a `loop` or naked branch in an unvisited block is never checked)."""
+    C = F.lib
+    rel = visit.type_closure(C, {"alpha::common::Statement"})
+    TR = "alpha::analyzer::syntax::Analyzable"
+    impls = [b for b in C.bodies.values() if b.get("impl_trait") == TR and "{closure" not in b["npath"]]
+    run.require(len(impls) >= 4, "syntax Analyzable impls not found (%d)" % len(impls))
+
+    def is_trav(c):
+        return c.endswith("analyzer::syntax::Analyzable>::analyze") or c == TR + "::analyze"
+    n = 0
+    for b in impls:
+        def rep(key, ok, where, detail, sample):
+            run.ob("R5-SYNTAX-VISITS", key, ok, where, detail + ": loop placement and naked branches inside it are never checked (E800/E801/E840)", sample)
+        # the guard `match &self` at the top of Statement::analyze only dispatches on the kind of statement
+        n += visit.check_impl(F, C, b, rel, is_trav, rep, skip_dispatch_only=True)
+    run.require(n >= 6, "too few visit obligations (%d)" % n)
+
+
 def check(run):
     F = run.facts("B")
     r1_emission(run, F)
     r2_flags(run, F)
     r3_lint(run, F)
     r4_generator(run, F)
+    r5_visit(run, F)
